@@ -15,9 +15,12 @@ Generators (all seeded):
   * (thorough) the full cross product of the boundary lattice, one multi-operation case per pair.
 
 Violation signature: {op, a, b, c, mode, operands, tag}
-  a/b/c     class of the operand: zero, +-fix, +-fixedge, fixmin, fixmax+1, +-big1, +-big2, +-bigN, +-ratio ("-" = unused)
+  a/b/c     class of the operand: zero, +-fix, +-fixedge, fixmin, fixmax+1, +-big1, +-big2, +-bigN, +-ratio ("-" = unused);
+            ratios carry the suffixes :num=fixmin, :num=fixmax+1 and :den=fixmax+1 (parts at the fixnum/bignum border)
   mode      crash | error | unparsable-output | wrong-result | operand-mutated | not-canonical-fixnum | not-eqv-to-literal
   operands  what the operands look like *after* the operation: intact | a-negated | b-negated | a-negated+b-negated | a-changed ...
+  r         class of the expected result (same classes; lists joined by ","; bool; string)
+  a wrong operand that was built by a non-literal route is reported as {op: "route:<route>", a: class, mode: wrong-result}
   tag       an operation specific refinement computed from the operands by the model (see tag_* functions), "-" if none
 """
 import math
@@ -32,6 +35,10 @@ FIXMAX = (1 << 62) - 1          # chibi fixnums on 64-bit: 63 bits incl. sign
 FIXMIN = -(1 << 62)
 W = 64
 ONES = (1 << W) - 1
+# vf.cases.PRELUDE flushes only *after* a case, so the marker of a case that kills the process stays in the stdio
+# buffer and the runner blames the previous case (and then gives up on the rest of the file).  Flush the marker first.
+PRELUDE = C.PRELUDE.replace("(display 'id) (newline)", "(display 'id) (newline) (flush-output-port)")
+assert PRELUDE.count("(flush-output-port)") == 4
 IMPORTS = "(import (scheme base) (scheme write) (scheme inexact) (scheme process-context) (only (chibi) fixnum?))"
 
 
@@ -59,7 +66,14 @@ LAT = lattice()
 
 def klass(v):
     if isinstance(v, Fraction) and v.denominator != 1:
-        return ("-" if v < 0 else "+") + "ratio"
+        k = ("-" if v < 0 else "+") + "ratio"
+        if v.numerator == FIXMIN:
+            k += ":num=fixmin"
+        if v.numerator == FIXMAX + 1:
+            k += ":num=fixmax+1"
+        if v.denominator == FIXMAX + 1:
+            k += ":den=fixmax+1"
+        return k
     v = int(v)
     s = "-" if v < 0 else "+"
     if v == FIXMIN:
@@ -92,8 +106,16 @@ def rnd_int(rng):
 def rnd_rat(rng):
     while True:
         d = rnd_int(rng)
+        n = rnd_int(rng)
+        r = rng.random()
+        if r < 0.03:
+            n = FIXMIN                   # numerator / denominator at the fixnum-bignum border
+        elif r < 0.06:
+            d = FIXMAX + 1
+        elif r < 0.08:
+            d = FIXMIN
         if d != 0:
-            return Fraction(rnd_int(rng), d)
+            return Fraction(n, d)
 
 
 def rnd_word(rng, top=False):
@@ -200,6 +222,19 @@ def tag_compare(vals):
     return "-"
 
 
+def tag_div(fa, fb):
+    """`/` (and floor-quotient etc., which are defined through it) builds the ratio a/b and reduces it in
+    sexp_ratio_normalize; a reduced denominator of exactly 2^62 sits on the fixnum/bignum border."""
+    if fb == 0:
+        return "-"
+    return "reduced-denominator=2^62" if (Fraction(fa) / Fraction(fb)).denominator == FIXMAX + 1 else "-"
+
+
+def tag_intermediate(vs):
+    """n-ary + and * fold from the left; an intermediate ratio with denominator 2^62 meets the same border."""
+    return "intermediate-denominator=2^62" if any(Fraction(v).denominator == FIXMAX + 1 for v in vs) else "-"
+
+
 def tag_radix(r, txt):
     if r <= 16:
         return "radix<=16"
@@ -221,7 +256,7 @@ def gen_case(rng, op):
     if op in ("+", "-", "*", "/", "<", "<=", "=", ">", ">=", "min", "max", "abs", "numerator", "denominator",
               "floor", "ceiling", "round", "truncate", "zero?", "positive?", "negative?", "exact->inexact->exact",
               "number->string10", "+n", "*n", "<n", "=n", "maxn", "minn", "neg", "recip", "number->string-ratio",
-              "string->number-ratio"):
+              "string->number-ratio", "expt"):
         if rng.random() < 0.35:
             ints = False
     a = rnd_int(rng) if ints or rng.random() < 0.5 else rnd_rat(rng)
@@ -253,22 +288,28 @@ def build_case(rng, op, a, b, c=0):
         if fb == 0:
             return None
         x, e = "(/ a b)", fa / fb
+        tag = tag_div(fa, fb)
     elif op == "neg":
         x, e, used = "(- a)", -fa, 1
     elif op == "recip":
         if fa == 0:
             return None
         x, e, used = "(/ a)", 1 / fa, 1
+        tag = tag_div(1, fa)
     elif op == "+3":
         x, e = "(+ a b a)", fa + fb + fa
+        tag = tag_intermediate([fa + fb])
     elif op == "*3":
         x, e = "(* a b b)", fa * fb * fb
+        tag = tag_intermediate([fa * fb])
     elif op == "+n":
         x, e, used = "(+ a b c b)", fa + fb + fc + fb, 3
+        tag = tag_intermediate([fa + fb, fa + fb + fc])
     elif op == "*n":
         if max(abs(v.numerator).bit_length() + v.denominator.bit_length() for v in (fa, fb, fc)) > 3000:
             return None
         x, e, used = "(* a b c)", fa * fb * fc, 3
+        tag = tag_intermediate([fa * fb])
     elif op == "<n":
         vs = sorted([fa, fb, fc])
         if rng.random() < 0.5:
@@ -312,14 +353,18 @@ def build_case(rng, op, a, b, c=0):
         if ib in (None, 0) or ia is None:
             return None
         x, e = "(%s a b)" % op, ia % ib
+        if op == "floor-remainder":
+            tag = tag_div(ia, ib)
     elif op == "floor-quotient":
         if ib in (None, 0) or ia is None:
             return None
         x, e = "(floor-quotient a b)", ia // ib
+        tag = tag_div(ia, ib)
     elif op == "floor/":
         if ib in (None, 0) or ia is None:
             return None
         x, e = "(call-with-values (lambda () (floor/ a b)) list)", [ia // ib, ia % ib]
+        tag = tag_div(ia, ib)
     elif op == "truncate/":
         if ib in (None, 0) or ia is None:
             return None
@@ -347,6 +392,8 @@ def build_case(rng, op, a, b, c=0):
             return None
         fb = Fraction(k)
         x, e = "(expt a b)", fa ** k
+        if fa.denominator != 1:
+            tag = "ratio-base," + ("negative-exponent" if k < 0 else "exponent>=0")
     elif op == "exact-integer-sqrt":
         if ia is None:
             return None
@@ -453,7 +500,7 @@ def build_case(rng, op, a, b, c=0):
     elif op == "exact->inexact->exact":
         # exactly representable: m * 2^k, |m| < 2^53
         m = rng.getrandbits(rng.choice([1, 10, 52, 53])) * rng.choice([1, -1])
-        k = rng.choice([0, 1, 10, 11, 63, 64, 100, 500, 970, -1, -10, -52, -100, -1000, -1021, -1022, -1023, -1024,
+        k = rng.choice([0, 1, 10, 11, 61, 62, 63, 64, 100, 500, 970, -1, -10, -52, -100, -1000, -1021, -1022, -1023, -1024,
                         -1025, -1030, -1074])
         v = Fraction(m) * (Fraction(2) ** k)
         if v != 0 and not (Fraction(2) ** -1074 <= abs(v) < Fraction(2) ** 1024):
@@ -466,6 +513,8 @@ def build_case(rng, op, a, b, c=0):
         x, e, used = "(exact (inexact a))", v, 1
         # sexp_ratio_to_double divides (double)num by (double)den
         tag = "denominator>=2^1024" if v.denominator >= (1 << 1024) else "denominator<2^1024"
+        if v == FIXMAX + 1:
+            tag = "value=fixmax+1"
     elif op == "inexact=":
         m = rng.getrandbits(53) * rng.choice([1, -1])
         k = rng.choice([0, 1, 10, 64, 200, 900])
@@ -580,6 +629,31 @@ def gen_ratio_compare(rng):
         return build_case(rng, op, a, b, rng.choice([a, b, 0, Fraction(1, 2)]))
 
 
+BORDER_OPS = ["neg", "abs", "-", "+", "*", "/", "recip", "numerator", "denominator", "round", "floor", "truncate",
+              "ceiling", "+n", "*n", "expt", "<", "max", "number->string10", "exact->inexact->exact"]
+
+
+def gen_border_ratio(rng):
+    """Ratios whose numerator or denominator is -2^62 / 2^62 (the fixnum/bignum border), as operand and as result."""
+    d = rng.choice([3, 5, 7, 1048577, (1 << 64) + 1, (1 << 31) - 1])
+    t = rng.choice([Fraction(FIXMIN, d), Fraction(FIXMAX + 1, d), Fraction(d, FIXMAX + 1), Fraction(-d, FIXMAX + 1),
+                    Fraction(FIXMIN + 1, d), Fraction(FIXMAX, d)])
+    u = rng.choice([Fraction(1), Fraction(-1), Fraction(1, d), Fraction(-2, d), Fraction(5), Fraction(rng.randrange(1, 99), d),
+                    Fraction(1 << 64), Fraction(-3, 1 << 62)])
+    op = rng.choice(BORDER_OPS)
+    if rng.random() < 0.5 or op not in ("-", "+", "*", "/"):
+        a, b = (t, u) if rng.random() < 0.6 else (u, t)               # border value as operand
+    elif op == "-":
+        a, b = (t + u, u) if rng.random() < 0.5 else (u, u - t)        # border value as result
+    elif op == "+":
+        a, b = t - u, u
+    elif op == "*":
+        a, b = t / u, u
+    else:
+        a, b = t * u, u
+    return build_case(rng, op, a, b, rng.choice([0, 1, t]))
+
+
 def expected_lit(e):
     if isinstance(e, list):
         return "(list %s)" % " ".join(expected_lit(x) for x in e)
@@ -685,21 +759,37 @@ def case_sig(c):
 
 
 def operand_state(c, a2, b2, c2):
+    """-> (state string, (operand name, route, class) of the first operand that is neither intact nor negated and
+    was not a literal, else None)."""
     st = []
-    for name, want, got in (("a", c["a"], a2), ("b", c["b"], b2), ("c", c["c"], c2)):
+    blame = None
+    for i, (name, want, got) in enumerate((("a", c["a"], a2), ("b", c["b"], b2), ("c", c["c"], c2))):
         if same(got, want):
             continue
         if not isinstance(got, bool) and isinstance(got, (int, Fraction)) and Fraction(got) == -Fraction(want):
             st.append(name + "-negated")
         else:
             st.append(name + "-changed")
-    return "+".join(st) if st else "intact"
+            if blame is None and c["routes"][i] != "literal":
+                blame = (name, c["routes"][i], klass(want))
+    return ("+".join(st) if st else "intact"), blame
+
+
+def rclass(e):
+    if isinstance(e, list):
+        return ",".join(rclass(x) for x in e)
+    if isinstance(e, bool):
+        return "bool"
+    if isinstance(e, str):
+        return "string"
+    return klass(e)
 
 
 def judge(rep, c, res):
     """Compare one observation with the model; record violation with a stable signature."""
     sig0 = {"op": c["op"], "a": klass(c["a"]), "b": klass(c["b"]) if c["used"] >= 2 else "-",
-            "c": klass(c["c"]) if c["used"] >= 3 else "-", "tag": c["tag"], "operands": "unknown"}
+            "c": klass(c["c"]) if c["used"] >= 3 else "-", "tag": c["tag"], "operands": "unknown",
+            "r": rclass(canon(c["expect"]))}
     wit = {"form": c["form"], "expected": repr(c["expect"]), "routes": c["routes"]}
     if res is None or res.status in ("missing",):
         rep.inconc("no-output", c["id"])
@@ -730,8 +820,13 @@ def judge(rep, c, res):
         rep.violation(dict(sig0, mode="unparsable-output"), wit)
         return
     r, fixp, canonp, a2, b2, c2 = obs
-    sig0["operands"] = operand_state(c, a2, b2, c2)
+    sig0["operands"], blame = operand_state(c, a2, b2, c2)
     e = canon(c["expect"])
+    if blame is not None:
+        # an operand that was *computed* (not a literal) has a wrong value that is not the negation of the intended
+        # one: the computation route (itself an exact operation) is what failed, not the operation of this case
+        rep.violation({"op": "route:" + blame[1], "a": blame[2], "mode": "wrong-result", "via": "operand-route"}, wit)
+        return
     if c["op"] == "multi":
         # name the first sub-operation that is wrong, so that signatures agree with the single-operation cases
         if isinstance(r, list) and len(r) == len(e):
@@ -764,7 +859,7 @@ def judge(rep, c, res):
 
 def case_stream(rng, tier, n):
     """Yields finished cases.  quick: n cases (70% random, 14% crafted division, 8% crafted multiplication,
-    8% crafted ratio comparisons); thorough: the same mix for n cases, then the lattice cross product."""
+    5% crafted ratio comparisons, 3% ratios with parts at +-2^62); thorough: the same mix for n cases, then the lattice cross product."""
     made = 0
     i = 0
     tries = 0
@@ -781,9 +876,12 @@ def case_stream(rng, tier, n):
         elif r < 0.92:
             c = gen_multiplication(rng)
             src = "crafted-multiplication"
-        else:
+        elif r < 0.97:
             c = gen_ratio_compare(rng)
             src = "crafted-ratio-compare"
+        else:
+            c = gen_border_ratio(rng)
+            src = "crafted-border-ratio"
         if c is None:
             continue
         i += 1
@@ -830,7 +928,7 @@ def check(rep, tier, seed, variant="hooks", n=None, env_extra=None):
         if not chunk:
             return
         res, procs = C.run_batches(b, IMPORTS, "", [(c["id"], c["form"]) for c in chunk], batch=1000,
-                                   env_extra=env, timeout=180, heap="64M/512M")
+                                   env_extra=env, timeout=180, heap="64M/512M", prelude=PRELUDE)
         for c in chunk:
             rep.case(case_sig(c))
             rep.count("cases_" + c["src"])
@@ -860,7 +958,8 @@ def check(rep, tier, seed, variant="hooks", n=None, env_extra=None):
                 "multiples +-1) and random up to 4000 bits, integers and ratios; (2) crafted division a=q*d+r steering "
                 "the quotient-estimate paths of sexp_bignum_quot_rem (equal leading words, leading words < 2^32, zero "
                 "estimate, overshoot); (3) crafted word-pattern products of 1..14 words (Karatsuba splits); (4) ratio "
-                "comparisons with cross products at the fixnum limits; thorough adds the full lattice cross product "
+                "comparisons with cross products at the fixnum limits; (5) ratios whose numerator/denominator is +-2^62 as "
+                "operand and as result; thorough adds the full lattice cross product "
                 "(one multi-operation case per pair).  Operands are built by a random route (literal, add-sub, quotient "
                 "with spare words, parsed).  A case is non-trivial by construction; distinct = (operation, class of a, "
                 "b, c, tag) with class = sign x {fix, fixedge, fixmin, fixmax+1, big1, big2, bigN, ratio}" % len(OPS))
@@ -885,4 +984,5 @@ def gc_workload(rng, n):
         return byid[cid]["op"]
 
     return {"imports": IMPORTS, "header": "", "cases": [(c["id"], c["form"]) for c in cs], "judge": judge_one,
-            "known": known, "classify": classify, "batch": 100, "heap": "64M/512M", "timeout": 180}
+            "known": known, "classify": classify, "batch": 100, "heap": "64M/512M", "timeout": 180,
+            "prelude": PRELUDE}
